@@ -33,7 +33,7 @@ ASSUMPTIONS = [
 ]
 
 HIST = gen.GenCfg(min_steps=3, max_steps=12, max_exchanges=3, max_holders=2, bulk_prob=0.06, fiat_columns=True)
-FLAVOURS = ("mixed", "mixed", "mixed", "fully_sold", "income_only", "buy_only", "transfer_heavy")
+FLAVOURS = ("mixed", "mixed", "mixed", "fully_sold", "income_only", "buy_only", "transfer_heavy", "dust_on_big_lot")
 REL = Fraction(1, 10**12)
 
 
@@ -128,8 +128,14 @@ def evaluate(case: Dict[str, Any]) -> Outcome:
                 return out
             if any(0 < consumed.get(lot.row, Fraction(0)) < lot.crypto_in for lot in lots):
                 out.classes.add("partially_consumed_lot")
-            positive = [b for b in ref["balances"] if b["final"] > 0]
-            if any(b["final"] < 0 for b in ref["balances"]):
+            # balances come from the generated rows (flows of each account up to the to-date), not from rp2's own balance set
+            flows = model.account_flows(txs, to_d)
+            balances = [{"ex": ex, "ho": ho, "final": flow.final} for (ex, ho), flow in sorted(flows.items())]
+            computed = {(b["ex"], b["ho"]): b["final"] for b in ref["balances"]}
+            if computed != {(b["ex"], b["ho"]): b["final"] for b in balances}:
+                out.classes.add("computed_balances_differ_from_flows(C07)")
+            positive = [b for b in balances if b["final"] > 0]
+            if any(b["final"] < 0 for b in balances):
                 out.skipped = "overdrawn_account"
                 return out
             if u <= 0:
